@@ -421,12 +421,18 @@ def decH : Handler := fun args impl =>
     else v
   | _ => v
 
+/-- `embed`: the implementation-side check that a container's bytes contain its children's own encodings, intact and
+    in order (C06).  The model side of the statement is the container theorems; here the expected answer is "ok". -/
+def embedH : Handler := fun _ impl =>
+  if impl.startsWith "ok" ∨ impl = "panic" ∨ impl = "spin" ∨ impl.startsWith "err" then { model := impl }
+  else { model := "ok", more := [("C06", s!"child not embedded intact: {impl.take 400}")] }
+
 def handlers : List (String × Handler) :=
   [("enc", enc), ("dec", decH), ("decc", fun a i => let v := decc a i
       match a with
       | kn :: _ :: ln :: _ => if kn.startsWith "p." ∧ (i = "panic" ∨ i = "spin") then { v with more := [("C08", s!"{kn} decoder on {ln} bytes: {i}")] } else v
       | _ => v),
-   ("fn", fn), ("prog", prog), ("api", api), ("parse", parseH),
+   ("fn", fn), ("prog", prog), ("api", api), ("parse", parseH), ("embed", embedH),
    ("rep", rep), ("rtrip", rtWith false), ("rtparse", rtWith true), ("scribble", scribble),
    ("repx", fun a i => { (rep a i) with more := [] }), ("rtx", fun a i => { (rtWith false a i) with more := [] })]
 
